@@ -68,11 +68,12 @@ class C20(Sim):
             "non-trivial = at least one union that merged two blocks or one pop of a non-empty queue")
     FAULT_KINDS = ["reject"]
     PROBES = ["self_union", "union_absent", "repeat_add", "tie_pop", "inf_priority", "mixed_elements", "tuple_elements",
-              "component_query", "mapping_query", "merge"]
+              "component_query", "mapping_query", "merge", "constructor_duplicates", "same_item_pushed_again"]
     QUICK_RUNS = 12000
     THOROUGH_RUNS = 2000000
     BLOCK = 200
-    ASSUMPTIONS = ["priorities are ints/floats incl. +-inf, never NaN (the statement lists ties, negatives, infinities)",
+    ASSUMPTIONS = ["priorities are ints/floats incl. +-inf, never NaN (the statement lists ties, negatives, infinities); the same element may be pushed several times, "
+                   "with the same or another priority: every push is one pending item (the model is a multiset)",
                    "elements are hashable ints, tuples of ints, or strings"]
     COMPONENTS = {"real": ["mouette.utils.UnionFind", "mouette.utils.PriorityQueue", "numpy"],
                   "stub": ["none (no I/O, clock or PRNG in these classes; global PRNGs are seeded anyway)"]}
@@ -104,7 +105,8 @@ class C20(Sim):
         if rng.chance(0.3):
             clients.append("reader")
         return {"kind": kind, "elts": elts, "clients": clients, "max_steps": rng.randint(8, 60),
-                "init": rng.below(min(4, len(elts)) + 1), "inv_every": rng.choice([1, 1, 3, 0]),
+                "init": rng.below(min(4, len(elts)) + 1), "init_dups": [rng.below(4) for _ in range(rng.below(3))] if rng.chance(0.3) else [],
+                "inv_every": rng.choice([1, 1, 3, 0]),
                 "burst": rng.choice([0.2, 0.5, 0.8]),
                 "prio_pool": rng.choice(["small", "float", "wide"]),
                 "reject_rate": rng.choice([0.1, 0.25])}
@@ -123,14 +125,18 @@ class C20(Sim):
         from mouette.utils import UnionFind, PriorityQueue
         self.elts = [dec(e) for e in cfg["elts"]]
         init = self.elts[:cfg["init"]]
+        if init and cfg.get("init_dups"):
+            init = init + [init[i % len(init)] for i in cfg["init_dups"]]  # "repeated adds": also through the constructor's initial list
+            self.probes["constructor_duplicates"] += 1
         self.uf = UnionFind(init) if init else UnionFind()
         self.ref = RefUF()
         for e in init:
             self.ref.add(e)
         self.pq = PriorityQueue()
-        self.pending = {}  # item id -> priority
+        self.pending = {}  # (item id, priority) -> how many times pushed and not handed out yet (a multiset)
         self.next_item = 0
         self.popped = set()
+        self.last_push = None
         self.merges = 0
         self.pops = 0
         self.opkinds = set()
@@ -187,7 +193,14 @@ class C20(Sim):
             return {"c": c, "op": op}
         if c == "producer":
             it = self.next_item
-            return {"c": c, "op": "push", "item": it, "w": canon(self._prio(r))}
+            w = self._prio(r)
+            if self.last_push is not None and r.chance(0.2):
+                # the very element pushed last, again: with the same priority, or another one
+                it = self.last_push[0]
+                w = self.last_push[1] if r.chance(0.6) else w
+            elif self.pending and r.chance(0.1):
+                it = r.choice(sorted(self.pending))[0]
+            return {"c": c, "op": "push", "item": it, "w": canon(w)}
         if c == "consumer":
             op = r.wchoice(["pop", "get", "front", "empty"], [4, 2, 2, 2])
             if op in ("pop", "get", "front") and not self.pending:
@@ -227,7 +240,7 @@ class C20(Sim):
         if op in ("pop_empty", "front_empty"):
             return not self.pending
         if op == "push":
-            return ev["item"] not in self.pending and ev["item"] not in self.popped
+            return True
         if op == "getitem":
             return ev["i"] < self.ref.n
         return True
@@ -399,7 +412,10 @@ class C20(Sim):
             out = call(self.pq.push, ("item", ev["item"]), w)
             if not out.ok:
                 self.exc_violation("push", op, out)
-            self.pending[ev["item"]] = w
+            if (ev["item"], w) in self.pending:
+                self.probes["same_item_pushed_again"] += 1
+            self.pending[(ev["item"], w)] = self.pending.get((ev["item"], w), 0) + 1
+            self.last_push = (ev["item"], w)
             self.next_item = max(self.next_item, ev["item"] + 1)
             query = False
         elif op in ("pop", "get", "front"):
@@ -409,16 +425,18 @@ class C20(Sim):
                 self.exc_violation("min-pending", op, out)
             it = out.value
             x, p = getattr(it, "x", None), getattr(it, "priority", None)
-            if not (isinstance(x, tuple) and len(x) == 2 and x[1] in self.pending):
+            mn = min(w_ for (_, w_) in self.pending)
+            if not (isinstance(x, tuple) and len(x) == 2 and any(i_ == x[1] for (i_, _) in self.pending)):
                 self.violation("exactly-once", op, "wrong_value", op, "",
-                               "%s() handed out %r which is not pending (pending=%r, already popped=%r)" % (op, it, self.pending, x[1] in self.popped if isinstance(x, tuple) else None))
-            mn = min(self.pending.values())
-            if self.pending[x[1]] != mn or p != mn:
+                               "%s() handed out %r which is not pending (pending=%r)" % (op, it, self.pending))
+            if (x[1], p) not in self.pending or p != mn:
                 self.violation("min-pending", op, "wrong_value", op, "", "%s() gave %r; minimum pending priority is %r (pending=%r)" % (op, it, mn, self.pending))
-            if sum(1 for v in self.pending.values() if v == mn) > 1:
+            if sum(n_ for (_, w_), n_ in self.pending.items() if w_ == mn) > 1:
                 self.probes["tie_pop"] += 1
             if op != "front":
-                del self.pending[x[1]]
+                self.pending[(x[1], p)] -= 1
+                if self.pending[(x[1], p)] == 0:
+                    del self.pending[(x[1], p)]
                 self.popped.add(x[1])
                 self.pops += 1
             res = x[1]
@@ -428,7 +446,7 @@ class C20(Sim):
             if not out.ok:
                 self.exc_violation("emptiness", op, out)
             if bool(out.value) != (len(self.pending) == 0):
-                self.violation("emptiness", op, "wrong_value", "empty", "", "empty()=%r with %d pending" % (out.value, len(self.pending)))
+                self.violation("emptiness", op, "wrong_value", "empty", "", "empty()=%r with %d pending" % (out.value, sum(self.pending.values())))
             res = bool(out.value)
             query = False
         elif op in ("pop_empty", "front_empty"):
@@ -468,12 +486,14 @@ class C20(Sim):
             if not out.ok:
                 self.exc_violation("exactly-once", "drain", out)
             it = out.value
-            if not (isinstance(it.x, tuple) and it.x[1] in self.pending):
+            mn = min(w_ for (_, w_) in self.pending)
+            if not (isinstance(it.x, tuple) and (it.x[1], it.priority) in self.pending):
                 self.violation("exactly-once", "drain", "wrong_value", "pop", "", "drain handed out %r, pending %r" % (it, self.pending))
-            mn = min(self.pending.values())
-            if it.priority != mn or self.pending[it.x[1]] != mn:
+            if it.priority != mn:
                 self.violation("min-pending", "drain", "wrong_value", "pop", "", "drain gave %r, min pending %r" % (it, mn))
-            del self.pending[it.x[1]]
+            self.pending[(it.x[1], it.priority)] -= 1
+            if self.pending[(it.x[1], it.priority)] == 0:
+                del self.pending[(it.x[1], it.priority)]
         out = call(self.pq.empty)
         if not out.ok or not out.value:
             self.violation("emptiness", "drain", "wrong_value", "empty", "", "queue not empty after draining every pushed item")
